@@ -709,6 +709,8 @@ func writeTranslations(repo, outdir string, fset *token.FileSet, parse func(stri
 		}
 		return nil
 	}
+	var methods map[string]methodSig
+	var cints map[string]int64
 	emit := func(file, recv, name, leanName string, consts map[string]string, ctypes map[string]ltype) {
 		f := parse(file)
 		fd := find(f, recv, name)
@@ -717,11 +719,60 @@ func writeTranslations(repo, outdir string, fset *token.FileSet, parse func(stri
 			fmt.Fprintf(&sb, "-- %s.%s: not found in %s\ndef %s : Unit := untranslatable \"missing\"\n\n", recv, name, file, leanName)
 			return
 		}
-		txt, bad := translateFunc(fset, fd, leanName, consts, ctypes)
+		txt, bad := translateFunc(fset, fd, leanName, consts, cints, ctypes, methods)
 		fmt.Fprintf(&sb, "/-- translated from %s: func %s -/\n%s\n", file, name, txt)
 		allBad = append(allBad, bad...)
 	}
 	emit("internal/fmtforward/make_format.go", "", "MakeFormat", "MakeFormat", nil, nil)
+
+	// internal/buffer/buffer.go: every method except the capacity management (grow,
+	// tryGrowByReslice, Grow, Cap, clone, makeSlice) and the unsafe.Pointer variant of Take
+	bufFile := parse("internal/buffer/buffer.go")
+	methods = map[string]methodSig{}
+	for _, d := range bufFile.Decls {
+		fd, ok := d.(*ast.FuncDecl)
+		if !ok || fd.Recv == nil || len(fd.Recv.List) != 1 {
+			continue
+		}
+		sig := methodSig{}
+		_, sig.ptr = fd.Recv.List[0].Type.(*ast.StarExpr)
+		for _, f := range fd.Type.Params.List {
+			for range f.Names {
+				sig.params = append(sig.params, goTypeOf(f.Type))
+			}
+		}
+		if fd.Type.Results != nil {
+			for _, f := range fd.Type.Results.List {
+				k := len(f.Names)
+				if k == 0 {
+					k = 1
+				}
+				for i := 0; i < k; i++ {
+					sig.rets = append(sig.rets, goTypeOf(f.Type))
+				}
+			}
+		}
+		sig.nret = len(sig.rets)
+		methods[fd.Name.Name] = sig
+	}
+	cints = map[string]int64{
+		"UnsafeEscaped": int64(buffer.UnsafeEscaped), "SafeEscaped": int64(buffer.SafeEscaped), "SafeRaw": int64(buffer.SafeRaw),
+		"PreRedactable": int64(buffer.PreRedactable),
+		"m.StartLen": int64(markers.StartLen), "m.EndLen": int64(markers.EndLen),
+		"utf8.RuneSelf": 0x80, "utf8.RuneError": 0xFFFD,
+	}
+	bconsts := map[string]string{
+		"m.StartBytes": leanBytes(string(markers.StartBytes)), "m.StartS": leanBytes(markers.StartS),
+		"m.EndBytes": leanBytes(string(markers.EndBytes)), "m.EndS": leanBytes(markers.EndS),
+		"m.EscapeMarkS": leanBytes(markers.EscapeMarkS), "m.EscapeMarkBytes": leanBytes(string(markers.EscapeMarkBytes)),
+	}
+	bctypes := map[string]ltype{"m.StartBytes": tBytes, "m.StartS": tBytes, "m.EndBytes": tBytes, "m.EndS": tBytes,
+		"m.EscapeMarkS": tBytes, "m.EscapeMarkBytes": tBytes}
+	// callees first
+	for _, n := range []string{"escapeToEnd", "endRedactable", "startRedactable", "startWrite", "finalize", "SetMode", "GetMode", "Reset",
+		"Write", "WriteString", "WriteByte", "WriteRune", "RedactableBytes", "RedactableString", "String", "TakeRedactableBytes", "Len"} {
+		emit("internal/buffer/buffer.go", "Buffer", n, n, bconsts, bctypes)
+	}
 	sb.WriteString("end Redact.Trans\n")
 	out := filepath.Join(outdir, "Trans.lean")
 	old, _ := os.ReadFile(out)
